@@ -1,5 +1,4 @@
 """C44 - parallel JIT library builds compile objects after their module dependencies."""
-import gc
 import os
 import shutil
 import subprocess
@@ -62,7 +61,10 @@ def dags(draw, max_n):
     builds = []
     for _ in range(nb):
         w = draw(st.sampled_from([2, 4, 8, 1]))
-        delays = [draw(st.sampled_from([0, 0, 10, 30, 60, 100, 150])) for _ in range(total)]
+        # delay by rank in a generated permutation (identity: low indices = providers are the slowest)
+        perm = draw(st.permutations(list(range(total))))
+        levels = [150, 100, 60, 30, 10, 0, 0]
+        delays = [levels[perm[i] * len(levels) // total] for i in range(total)]
         builds.append({'workers': w, 'delays': delays})
     return {'mods': mods, 'leaf': leaf, 'order': list(order), 'builds': builds}
 
@@ -163,10 +165,8 @@ def shape_classes(case):
 # --------------------------------------------------------------------------
 
 def _cleanup_children():
+    """no process may outlive a case: the Manager that loki starts is only shut down by its finalizer"""
     import multiprocessing
-    if not multiprocessing.active_children():
-        return 0
-    gc.collect()      # the log-queue Manager of the work queue is only shut down by its finalizer
     left = multiprocessing.active_children()
     for p in left:
         p.terminate()
@@ -319,7 +319,7 @@ def _check(case, ctx, root, src):
 
 def run_shard(ctx):
     n = ctx.scale(48, 600)
-    ctx.given(dags(15 if ctx.thorough else 10), check_case, n, label='dags')
+    ctx.given(dags(15 if ctx.thorough else 8), check_case, n, label='dags', shrink=not os.environ.get('LOKIVERIF_NOSHRINK'))
     ctx.note('OS-level interleavings are not enumerated; the harness owns the duration of each compile only')
 
 
